@@ -17,6 +17,8 @@ type Hooks interface {
 	FaultOn(owner any, name string, subject any) error
 	// Go is the first statement of a goroutine the simulator has to schedule.
 	Go(owner any, name string)
+	// Done is the last statement (deferred first) of such a goroutine.
+	Done(owner any, name string)
 	// Access reports a read or write of state shared without a lock.
 	Access(owner any, obj string, write bool)
 	// Knob lets the simulator override a tuning constant.
@@ -60,6 +62,12 @@ func FaultOn(owner any, name string, subject any) error {
 func Go(owner any, name string) {
 	if Impl != nil {
 		Impl.Go(owner, name)
+	}
+}
+
+func Done(owner any, name string) {
+	if Impl != nil {
+		Impl.Done(owner, name)
 	}
 }
 
